@@ -241,6 +241,7 @@ def guess_frame(F, r):
         r.fail("guess|types", "-", "Temperature / Pressure types could not be determined")
         return 0
     n = 0
+    n_whole = [0]
     for b in F.bodies:
         if b.is_closure() or b.crate != "feos_core" or "phase_equilibria" not in b.path:
             continue
@@ -284,6 +285,28 @@ def guess_frame(F, r):
                 if dp & set(guess):
                     bad.append((t["span"], "temperature" if ty["s"] == t_ty else "pressure", callee(t)[2]))
         fn = b.path.split("::")[-1]
+        # (c') a guess that is handed on *as a whole* (by value) has been re-evaluated at the specified conditions on every path:
+        # each reaching definition of the argument is the result of a call that also receives a specified-typed quantity which is
+        # not derived from the guess (`init.clone().update_pressure(self.temperature, p)?`); a bare clone of the guess reaching the
+        # solver on some path (a "skip the re-evaluation if the pressure already matches" shortcut) keeps the guess's temperature.
+        for bi, t in b.calls():
+            if _reinit(b, defs, t, spec_types, guess):
+                continue
+            for a_ in t["args"]:
+                if a_.get("k") != "move" and a_.get("k") != "copy":
+                    continue
+                ty = b.opty(a_)
+                if not ty or not ty["s"].startswith(("phase_equilibria::PhaseEquilibrium<", "feos_core::phase_equilibria::PhaseEquilibrium<")):
+                    continue
+                raw = _raw_guess_roots(b, defs, a_["place"]["l"], spec_types, guess, bi, len(b.blocks[bi]["stmts"]))
+                n_whole[0] += 1
+                if raw:
+                    r.inst("guess|%s|whole->%s" % (fn, callee(t)[2]), t["span"], "violation")
+                    r.fail("guess|%s|whole-guess-not-reinitialised->%s" % (fn, callee(t)[2]), t["span"],
+                           "%s: the equilibrium handed to %s() is, on some path, the initial guess itself (cloned, not re-evaluated at the "
+                           "specified temperature / pressure): the solver then converges at the guess's conditions" % (fn, callee(t)[2]))
+                else:
+                    r.inst("guess|%s|whole->%s" % (fn, callee(t)[2]), t["span"], "ok")
         iid = "guess|%s" % fn
         if bad:
             r.inst(iid, bad[0][0], "violation")
@@ -292,4 +315,92 @@ def guess_frame(F, r):
                    "equilibrium would sit at the guess's %s instead of the specified one" % (fn, bad[0][1], bad[0][2], bad[0][1], bad[0][1]))
         else:
             r.inst(iid, b.file_line(), "ok", specified=sorted("T" if x == t_ty else "p" for x in spec_types))
+    r.floor("whole initial guesses handed on by value (re-initialised on every path)", n_whole[0], 1)
     return n
+
+
+_PLUMBING = ("clone", "branch", "deref", "unwrap", "expect", "into", "from", "to_owned", "as_ref", "cloned", "copied")
+
+
+def _reinit(b, defs, t, spec_types, guess):
+    """a call that receives a specified-typed quantity not derived from the guess (a re-evaluation at the specified conditions)"""
+    for a in t["args"]:
+        if a.get("k") in ("copy", "move"):
+            ty = b.opty(a)
+            if ty and ty["s"] in spec_types and not (derived_params(b, defs, a["place"]["l"]) & set(guess)):
+                return True
+    return False
+
+
+def _reaching(b, defs, l, ubi, usi):
+    """definitions of local `l` that reach the use at statement `usi` of block `ubi` (len(stmts) = the terminator):
+    classic reaching definitions, whole-local assignments kill"""
+    nst = [len(blk["stmts"]) for blk in b.blocks]
+    alld = defs.of(l)
+
+    def pos(d):
+        return (d[1], d[2]) if d[0] == "stmt" else (d[1], nst[d[1]])
+
+    def whole(d):
+        return not (d[3] if d[0] == "stmt" else d[2]["dest"])["p"]
+    kills = {}
+    for d in alld:
+        if whole(d):
+            kills.setdefault(pos(d)[0], []).append(pos(d)[1])
+    succs = b.succs()
+    out = []
+    for d in alld:
+        dbi, dsi = pos(d)
+        if dbi == ubi and dsi < usi and not any(dsi < k < usi for k in kills.get(dbi, [])):
+            out.append(d)
+            continue
+        if any(k > dsi for k in kills.get(dbi, [])):
+            continue
+        seen, work, hit = set(), list(succs[dbi]), False
+        while work and not hit:
+            x = work.pop()
+            if x in seen:
+                continue
+            seen.add(x)
+            if x == ubi:
+                if not any(k < usi for k in kills.get(x, [])):
+                    hit = True
+                    break
+                if kills.get(x):
+                    continue
+            elif kills.get(x):
+                continue
+            work += succs[x]
+        if hit:
+            out.append(d)
+    return out
+
+
+def _raw_guess_roots(b, defs, local, spec_types, guess, ubi=None, usi=None):
+    """does `local` hold, on some definition reaching the use, the guess itself (through copies, refs, `?` plumbing and clones only)?"""
+    nst = [len(blk["stmts"]) for blk in b.blocks]
+    seen, work = set(), [(local, ubi, usi)]
+    while work:
+        l, bi_, si_ = work.pop()
+        if (l, bi_, si_) in seen:
+            continue
+        seen.add((l, bi_, si_))
+        if l in guess:
+            return True
+        ds = defs.of(l) if bi_ is None else _reaching(b, defs, l, bi_, si_)
+        for d in ds:
+            if d[0] == "call":
+                t = d[2]
+                if _reinit(b, defs, t, spec_types, guess):
+                    continue
+                if str(callee(t)[2]) in _PLUMBING:
+                    work += [(a["place"]["l"], d[1], nst[d[1]]) for a in t["args"] if a.get("k") in ("copy", "move")]
+                continue
+            rv = d[4]
+            if rv["k"] in ("use", "cast") and rv["op"].get("k") in ("copy", "move"):
+                work.append((rv["op"]["place"]["l"], d[1], d[2]))
+            elif rv["k"] in ("ref", "discr"):
+                work.append((rv["place"]["l"], d[1], d[2]))
+            elif rv["k"] == "agg":
+                work += [(o["place"]["l"], d[1], d[2]) for o in rv["ops"] if o.get("k") in ("copy", "move")]
+    return False
